@@ -40,6 +40,21 @@ fn reference(v: &Value, out: &mut Vec<u8>) -> Result<(), ()> {
     Ok(())
 }
 
+/// every character that any JSON writer treats specially, alone and embedded, as a value and as an object key
+pub fn char_class_samples() -> Vec<Value> {
+    let mut out = vec![];
+    let mut cs: Vec<char> = (0u32..=0x20).map(|c| char::from_u32(c).unwrap()).collect();
+    cs.extend(['"', '\\', '/', '\u{7f}', '\u{80}', '\u{9f}', '\u{2028}', '\u{2029}', '\u{feff}', '\u{fffd}']);
+    for c in cs {
+        out.push(json!(c.to_string()));
+        out.push(json!(format!("a{}b", c)));
+        let mut m = serde_json::Map::new();
+        m.insert(c.to_string(), json!(1));
+        out.push(Value::Object(m));
+    }
+    out
+}
+
 pub fn samples() -> Vec<Value> {
     vec![
         json!(null), json!(true), json!(false), json!(0), json!(-1), json!(i64::MIN), json!(i64::MAX), json!(u64::MAX),
@@ -51,7 +66,7 @@ pub fn samples() -> Vec<Value> {
 }
 
 pub fn run_c10(r: &mut Report) {
-    for v in samples() {
+    for v in samples().into_iter().chain(char_class_samples()) {
         let got = canon(&v);
         let mut exp = vec![];
         let ok_ref = reference(&v, &mut exp).is_ok();
@@ -87,4 +102,48 @@ pub fn run_c05(r: &mut Report) {
         }
     }}
     r.case("no-collisions", json!({"values": s.len()}), "0 collisions", format!("{} collisions", collisions), collisions == 0);
+
+    // "expiry to the second": layouts that differ only in their expiry are signed over different bytes, and the expiry that is
+    // signed is the expiry that is read back (grid: year boundaries 2024-2031 +-4 days, leap day, second granularity, far dates)
+    use chrono::{TimeZone, Utc, Duration};
+    use in_toto::models::{LayoutMetadataBuilder, MetadataWrapper, Metablock, MetablockBuilder};
+    let mut grid = vec![];
+    for y in 2024..=2031 {
+        let ny = Utc.with_ymd_and_hms(y, 1, 1, 0, 0, 0).unwrap();
+        for d in -4i64..=4 { grid.push(ny + Duration::days(d)); }
+        grid.push(ny - Duration::seconds(1));
+        grid.push(ny + Duration::seconds(1));
+    }
+    grid.push(Utc.with_ymd_and_hms(2028, 2, 29, 12, 0, 0).unwrap());
+    grid.push(Utc.with_ymd_and_hms(2028, 3, 1, 12, 0, 0).unwrap());
+    grid.push(Utc.with_ymd_and_hms(1970, 1, 1, 0, 0, 0).unwrap());
+    grid.push(Utc.with_ymd_and_hms(9999, 12, 31, 23, 59, 59).unwrap());
+    grid.sort(); grid.dedup();
+    let k = crate::fixture::key(1);
+    let mut seen: std::collections::HashMap<Vec<u8>, chrono::DateTime<Utc>> = std::collections::HashMap::new();
+    let mut bad = 0;
+    for t in &grid {
+        let l = LayoutMetadataBuilder::new().expires(*t).build().unwrap();
+        let bytes = MetadataWrapper::Layout(l.clone()).to_bytes();
+        match bytes {
+            Ok(b) => {
+                if let Some(prev) = seen.get(&b) {
+                    bad += 1;
+                    r.case("expiry-collision", json!({"a": prev.to_rfc3339(), "b": t.to_rfc3339()}), "different signed bytes", "same signed bytes".into(), false);
+                }
+                seen.insert(b, *t);
+            }
+            Err(e) => { bad += 1; r.case("expiry-bytes", json!({"expires": t.to_rfc3339()}), "Ok", format!("Err({})", e), false); }
+        }
+        // what is signed is what a verifier reads back
+        let mb = MetablockBuilder::from_metadata(Box::new(l.clone())).sign(&[&k]).unwrap().build();
+        let back: Result<Metablock, _> = serde_json::from_str(&serde_json::to_string(&mb).unwrap());
+        let same = matches!(&back, Ok(m) if matches!(&m.metadata, MetadataWrapper::Layout(l2) if l2.expires == *t));
+        if !same {
+            bad += 1;
+            r.case("expiry-readback", json!({"expires": t.to_rfc3339()}), "the same instant",
+                   format!("{:?}", back.as_ref().map(|m| match &m.metadata { MetadataWrapper::Layout(l2) => l2.expires.to_rfc3339(), _ => "link".into() }).map_err(|e| e.to_string())), false);
+        }
+    }
+    r.case("expiry-grid", json!({"instants": grid.len()}), "pairwise different signed bytes, read back unchanged", format!("{} failures", bad), bad == 0);
 }
